@@ -14,8 +14,6 @@ Q_Lims == {2, 4, 8}
 T_Lens == {3, 8, 20, 60, 90}
 T_Lims == {2, 4, 8, 12}
 
-NoUnderflow == Admitted => ~under
-
 \* number of admitted profiles that contain a window (increase followed by a decrease): vacuity guard
 HasWindow == \E i \in 2..Len(sp) : sp[i][2] > sp[i-1][2] /\ \E j \in (i+1)..Len(sp) : sp[j][2] < sp[j-1][2]
 
